@@ -11,12 +11,18 @@ TokFull == TokCore \cup TokExtra
 TokSmall == { <<"a">>, <<".">>, <<"[","^","a","]">>, <<"*">>, <<"-">>, <<"?">>, <<"(">>, <<")">>, <<"(",")">>, <<"%","1">>,
               <<"%","b","a","b">>, <<"%","f","[","a","]">>, <<"^">>, <<"$">> }
 
+(* the three-token patterns of the quick tier *)
+TokQ3 == { <<"a">>, <<".">>, <<"%","a">>, <<"[","a","b","]">>, <<"[","^","a","]">>, <<"*">>, <<"+">>, <<"-">>, <<"?">>, <<"(">>, <<")">>,
+           <<"(",")">>, <<"%","1">>, <<"%","b","a","b">>, <<"%","f","[","a","]">>, <<"^">>, <<"$">>, <<"%">> }
+
 Strs(A, n) == UNION {[1..k -> A] : k \in 0..n}
 UnivAll == {"a", "b", "c", "1", "-", "]", "^", "$", "%", "*", ".", "("}
 SubjABC(n) == Strs({"a", "b", "c"}, n)
 SubjDig(n) == Strs({"a", "1"}, n)
 SubjPun(n) == Strs({"a", "-", "]", "^", "$", "%", "*", "."}, n)
-SubjQ == SubjABC(3) \cup SubjDig(2) \cup SubjPun(1)
-SubjT == SubjABC(4) \cup SubjDig(3) \cup SubjPun(2)
-SubjS == SubjABC(3) \cup SubjDig(2)
+SubjQ == SubjABC(3) \cup SubjDig(2) \cup SubjPun(1)           \* 51
+SubjQL == SubjABC(3) \cup SubjDig(2)                          \* 44
+SubjT == SubjABC(4) \cup SubjDig(3) \cup SubjPun(2)           \* 203
+SubjTL == SubjABC(4)                                          \* 121
+SubjT4 == SubjABC(2) \cup Strs({"a", "b"}, 3)                 \* 21
 =============================================================================
